@@ -2469,7 +2469,7 @@ impl Zeroconf {
         listener: Sender<HostnameResolutionEvent>,
         timeout: Option<u64>,
     ) {
-        let real_timeout = timeout.map(|t| current_time_millis() + t);
+        let real_timeout = timeout.map(|t| current_time_millis().saturating_add(t));
         self.hostname_resolvers
             .insert(hostname.to_lowercase(), (listener, real_timeout));
         if let Some(t) = real_timeout {
@@ -4010,7 +4010,7 @@ impl Zeroconf {
         let expire_at = if repeating {
             None
         } else {
-            Some(now + timeout.as_millis() as u64)
+            Some(now.saturating_add(timeout.as_millis() as u64))
         };
 
         // send query for the resource records.
